@@ -310,3 +310,19 @@ Example C16_history_id_echo_nonvacuous :
     = Ok ([mkReply s1 (PSingle (Some r1)); mkReply s2 (PBatch [Some r2]); mkReply s3 (PSingle (Some r3))], tt) /\
     r_id r1 = Some (JNum (ascii_bytes "1")) /\ r_id r2 = None /\ r_id r3 = Some (JNum (ascii_bytes "7")).
 Proof. eexists _, _, _, _, _, _. split; [vm_compute; reflexivity|]. repeat split. Qed.
+
+(* Tie of the hand-written JSON-RPC error codes of Rpc/WfModel.v (and of Rpc/Model.v, which
+   WfProofsC09 links to it) to the source.  Gen/Consts.v is regenerated on every run by the
+   translator harness/cmd/gen_consts from the `const` declarations of pkg/rpcbackend/backend.go as
+   they are NOW (internal/rpcserver declares no codes of its own, it uses these).  The models keep
+   their own literals; this theorem is what breaks when a code changes in the source. *)
+From FFS Require Gen.Consts.
+Theorem C16_source_constants :
+  Gen.Consts.rpcbackend_RPCCodeParseError = Rpc.WfModel.RPCCodeParseError /\
+  Gen.Consts.rpcbackend_RPCCodeInvalidRequest = Rpc.WfModel.RPCCodeInvalidRequest /\
+  Gen.Consts.rpcbackend_RPCCodeInternalError = Rpc.WfModel.RPCCodeInternalError /\
+  Gen.Consts.rpcbackend_RPCCodeParseError = Rpc.Model.RPCCodeParseError /\
+  Gen.Consts.rpcbackend_RPCCodeInvalidRequest = Rpc.Model.RPCCodeInvalidRequest /\
+  Gen.Consts.rpcbackend_RPCCodeInternalError = Rpc.Model.RPCCodeInternalError.
+Proof. vm_compute. repeat split; reflexivity. Qed.
+Print Assumptions C16_source_constants.
